@@ -29,3 +29,7 @@ def run(tier, seed):
                      "and run on its CEK machine; non-trivial = observes an emit, an error or a non-void value")
     r.cov["exhaustive"] = True
     return r.finish()
+
+
+def replay_file(path):
+    return vlib.replay_file(PROP, path)
